@@ -365,7 +365,59 @@ func (s *genState) emitMotif(prop string) {
 		return
 	}
 	ti := g.Intn(len(s.trees))
-	switch g.Intn(4) {
+	switch g.Intn(5) {
+	case 4:
+		// two trees loaded from one just-committed version both delete the same interior key
+		// (merging the same two children), then one of them keeps editing
+		s.emitPersist(ti, prop)
+		t := s.trees[ti]
+		if len(t.model) < 3 || len(s.vers) == 0 {
+			return
+		}
+		vi := len(s.vers) - 1
+		if s.vers[vi].kind != "root" || s.vers[vi].maybeDead {
+			return
+		}
+		best, bk := -1, 0
+		for kk := range t.model {
+			if l := s.layerOf(kk); l > best || (l == best && kk < bk) {
+				best, bk = l, kk
+			}
+		}
+		var slots []int
+		for r := 0; r < 2; r++ {
+			op := Op{K: "reload", T: g.Intn(maxTrees), A: refVerBase + vi}
+			s.ops = append(s.ops, op)
+			v := s.vers[vi]
+			before := len(s.trees)
+			s.place(op.T, &genTree{model: cpMap(v.snap), base: cpMap(v.snap), hasRoot: true, baseVer: vi, disk: v.disk})
+			slot := op.T
+			if before < maxTrees {
+				slot = before
+			} else if slot < 0 || slot >= len(s.trees) {
+				slot = len(s.trees) - 1
+			}
+			slots = append(slots, slot)
+		}
+		for _, sl := range slots {
+			tt := s.trees[sl]
+			if v, ok := tt.model[bk]; ok {
+				s.ops = append(s.ops, Op{K: "del", T: sl, Key: bk, Val: v})
+				delete(tt.model, bk)
+				tt.dirty = true
+			}
+		}
+		for i := 0; i < 2; i++ {
+			tt := s.trees[slots[0]]
+			k := s.anyKey(tt, 50)
+			if v, ok := tt.model[k]; ok && i == 0 {
+				s.ops = append(s.ops, Op{K: "del", T: slots[0], Key: k, Val: v})
+				delete(tt.model, k)
+			} else {
+				s.ops = append(s.ops, Op{K: "ins", T: slots[0], Key: k, Val: 9})
+				tt.model[k] = 9
+			}
+		}
 	case 0:
 		// persist; delete the top-layer key (shrink through a key-less root onto a persisted
 		// child); capture a version; modify below
